@@ -236,9 +236,10 @@ func (p *MetadataPersister) GetHeaderByLinkname(ctx context.Context, linkname st
 
 func (p *MetadataPersister) GetHeaderChildren(ctx context.Context, name string) ([]*config.Header, error) {
 	name = p.getSanitizedPath(ctx, name)
+	childPrefix := strings.TrimSuffix(name, "/") + "/" // Prevent double trailing slashes
 
 	headers, err := models.Headers(
-		qm.Where(models.HeaderColumns.Name+" like ?", strings.TrimSuffix(name, "/")+"/%"), // Prevent double trailing slashes
+		qm.Where(models.HeaderColumns.Name+" like ?", childPrefix+"%"),
 		qm.Where(models.HeaderColumns.Deleted+" != 1"),
 	).All(ctx, p.sqlite.DB)
 	if err != nil {
@@ -247,6 +248,11 @@ func (p *MetadataPersister) GetHeaderChildren(ctx context.Context, name string) 
 
 	outhdrs := []*config.Header{}
 	for _, hdr := range headers {
+		// `like` treats `_` and `%` in the name as wildcards and ignores case, so check for the literal prefix
+		if !strings.HasPrefix(hdr.Name, childPrefix) {
+			continue
+		}
+
 		prefix := strings.TrimSuffix(hdr.Name, "/")
 		if name != prefix && name != prefix+"/" {
 			outhdrs = append(outhdrs, converters.DBHeaderToConfigHeader(hdr))
@@ -423,6 +429,11 @@ where %v like ?
 
 	outhdrs := []*config.Header{}
 	for _, hdr := range headers {
+		// `like` treats `_` and `%` in the name as wildcards and ignores case, so check for the literal prefix
+		if !strings.HasPrefix(hdr.Name, prefix) {
+			continue
+		}
+
 		prefix := strings.TrimSuffix(hdr.Name, "/")
 		if name != prefix && name != prefix+"/" {
 			outhdrs = append(outhdrs, hdr)
